@@ -338,6 +338,38 @@ func convertFacts(s *src, f *facts) {
 			ctxOwn = declared && assigned && used
 		}
 		f.b("pxCtxIsInvocationCtx", ctxOwn, s.pos(proxy))
+		// the closure id an invocation asks for is decoded from ITS argument position into a variable of the
+		// per-invocation literal (one proxy per function-typed parameter, none of them shares it), and the
+		// CallClosure stub is built there too (per link: it captures this link's writer and resolver)
+		idOwn, stubOwn := false, false
+		if proxy != nil {
+			ast.Inspect(proxy.Body, func(n ast.Node) bool {
+				if a, ok := n.(*ast.AssignStmt); ok && a.Tok.String() == ":=" && len(a.Lhs) == 1 {
+					if s.str(a.Lhs[0]) == "closureID" {
+						idOwn = true
+					}
+					if c, ok := a.Rhs[0].(*ast.CallExpr); ok && strings.HasSuffix(s.str(c.Fun), ".makeRPC") && len(c.Args) > 1 && s.str(c.Args[1]) == "\"CallClosure\"" {
+						stubOwn = true
+					}
+				}
+				if vs, ok := n.(*ast.ValueSpec); ok {
+					for _, nm := range vs.Names {
+						if nm.Name == "closureID" {
+							idOwn = true
+						}
+					}
+				}
+				return true
+			})
+			dec := false
+			for _, c := range s.callsTo(proxy, "unmarshal") {
+				if len(c.Args) == 2 && strings.HasPrefix(s.str(c.Args[0]), "req.Args[") && s.str(c.Args[1]) == "&closureID" {
+					dec = true
+				}
+			}
+			idOwn = idOwn && dec
+		}
+		f.b("pxClosureIdPerInvocation", idOwn && stubOwn, s.pos(proxy))
 	}
 	cc := s.funcDecl("", "createClosure")
 	var wrapper *ast.FuncLit
